@@ -1555,8 +1555,62 @@ class Inliner:
                 self.propagate_attr_aliases(fd)
                 if getattr(fd, "_inlined_into", False):
                     self.paired_counters(fd)
+                    self.local_to_attr(fd)
         ast.fix_missing_locations(self.tree)
         return self.count
+
+    def local_to_attr(self, fd):
+        """`x = C(...)` ... `x.a = v` ... `self.A = x` (x a local that did not exist at the pinned commit, defined once,
+        used only to configure the object before it is stored, never after; nothing in between reads self.A): the
+        object is built in the attribute itself - `self.A = C(...)`; `self.A.a = v` (what an extracted factory helper
+        looks like after inlining)."""
+        base_names = self.base or ()
+        for blk in [x for x in ast.walk(fd) if isinstance(getattr(x, "body", None), list)]:
+            for fld in ("body", "orelse", "finalbody"):
+                body = getattr(blk, fld, None)
+                if not isinstance(body, list):
+                    continue
+                i = 0
+                while i < len(body):
+                    st = body[i]
+                    if isinstance(st, ast.Assign) and len(st.targets) == 1 and isinstance(st.targets[0], ast.Name) \
+                            and isinstance(st.value, ast.Call) and st.targets[0].id not in base_names:
+                        x = st.targets[0].id
+                        stores = [n for n in ast.walk(fd) if isinstance(n, ast.Name) and n.id == x and isinstance(n.ctx, (ast.Store, ast.Del))]
+                        if len(stores) == 1:
+                            j = i + 1
+                            ok = False
+                            while j < len(body):
+                                s2 = body[j]
+                                if isinstance(s2, ast.Assign) and len(s2.targets) == 1 and isinstance(s2.targets[0], ast.Attribute) \
+                                        and isinstance(s2.targets[0].value, ast.Name) and s2.targets[0].value.id == "self" \
+                                        and isinstance(s2.value, ast.Name) and s2.value.id == x:
+                                    ok = True
+                                    break
+                                # configuration statements: `x.a = <expr not mentioning x>`
+                                if isinstance(s2, ast.Assign) and len(s2.targets) == 1 and isinstance(s2.targets[0], ast.Attribute) \
+                                        and isinstance(s2.targets[0].value, ast.Name) and s2.targets[0].value.id == x \
+                                        and not any(isinstance(n, ast.Name) and n.id == x for n in ast.walk(s2.value)):
+                                    j += 1
+                                    continue
+                                break
+                            if ok:
+                                tgt = body[j].targets[0]
+                                A = tgt.attr
+                                between = body[i:j]
+                                reads_A = any(isinstance(n, ast.Attribute) and n.attr == A and isinstance(n.value, ast.Name) and n.value.id == "self"
+                                              for s_ in between for n in ast.walk(s_))
+                                later = any(isinstance(n, ast.Name) and n.id == x for s_ in body[j + 1:] for n in ast.walk(s_))
+                                uses_total = sum(1 for n in ast.walk(fd) if isinstance(n, ast.Name) and n.id == x)
+                                uses_here = sum(1 for s_ in body[i:j + 1] for n in ast.walk(s_) if isinstance(n, ast.Name) and n.id == x)
+                                if not reads_A and not later and uses_total == uses_here:
+                                    repl = ast.Attribute(value=ast.Name(id="self", ctx=ast.Load()), attr=A, ctx=ast.Load())
+                                    st.targets = [ast.copy_location(ast.Attribute(value=ast.Name(id="self", ctx=ast.Load()), attr=A, ctx=ast.Store()), st.targets[0])]
+                                    for s_ in body[i + 1:j]:
+                                        s_.targets[0].value = _clone(repl)
+                                    del body[j]
+                                    self.count += 1
+                    i += 1
 
     def paired_counters(self, fd):
         """`n = 0` ... `L.append(x); n += 1` (the only updates of n, each right after an append to the list L, which
